@@ -35,7 +35,7 @@ GRID_FLIPS = {  # same-product shapes: the C layer re-initialises only when the 
     60: [(6, 10), (10, 6), (5, 12), (12, 5), (4, 15)],
 }
 BAD_KINDS = ["stats_unknown", "smooth_even", "split_bad", "bbox_overlap", "sel_method", "hp01_wstype",
-             "fit_none", "ptm_coords", "names_len"]
+             "fit_none", "ptm_coords", "names_len", "ptm_coords_close"]
 WRITER_FMTS = ["swan", "swan_gz", "octopus", "json", "ww3", "netcdf", "funwave", "orcaflex"]
 NATIVE_FMTS = ["ww3", "ncswan", "wwm"]
 
@@ -145,6 +145,8 @@ def _gen_bad(rng, meta):
         kinds = [k for k in kinds if k != "sel_method"]
     if not any(k == "time" and n >= 1 for k, n in recipe["dims"]):
         kinds = [k for k in kinds if k != "ptm_coords"]
+    if not any(k == "site" for k, _ in recipe["dims"]) or recipe.get("nd", 0) < 3:
+        kinds = [k for k in kinds if k != "ptm_coords_close"]
     return {"k": rng.choice(kinds), "via": "da" if meta["kind"] == "da" else rng.choice(["da", "ds"])}
 
 
@@ -153,6 +155,8 @@ def _gen_edit(rng, meta):
         kinds = ["efth_scale", "efth_scale", "efth_replace", "dir_assign", "freq_assign", "attrs_set", "values_poke", "add_var"]
     else:
         kinds = ["dir_assign", "dir_assign", "freq_assign", "values_poke", "attrs_set"]
+    if meta["kind"] == "ds" and any(k == "site" for k, _ in meta["recipe"]["dims"]):
+        kinds += ["lonlat_assign", "lonlat_assign"]
     if meta["recipe"].get("nd", 0) == 0:
         kinds = [k for k in kinds if k != "dir_assign"]
     if meta["backing"] == "dask":
@@ -171,6 +175,8 @@ def _gen_edit(rng, meta):
         e["f"] = rng.choice([3.0, 0.5])
     elif k == "add_var":
         e["name"] = rng.choice(["crsd", "hs", "tm01", "crsd"])
+    elif k == "lonlat_assign":
+        e["how"] = rng.choice(["reverse", "shift", "values"])
     return e
 
 
@@ -271,6 +277,9 @@ def gen_plan(rng, tier="quick", prop="C18"):
             st = {"op": "writer", "slot": slot, "fmt": fmt, "file": fname, "kw": {}}
             if fmt in ("swan", "swan_gz", "octopus") and rng.random() < 0.4:
                 st["kw"]["ntime"] = rng.choice([1, 2])
+            if fmt in ("swan", "swan_gz", "octopus") and rng.random() < 0.4:
+                ns = dict((k, n) for k, n in metas[slot]["recipe"]["dims"]).get("site", 1)
+                st["lonlat_args"] = [[round(150.0 + 0.5 * i, 2) for i in range(ns)], [round(-30.0 + 0.25 * i, 2) for i in range(ns)]]
             if prop == "C17" and rng.random() < 0.6:
                 st["fault"] = {"kind": rng.choice(["eio", "eio", "enospc", "torn", "close_err", "short"]), "k": rng.choice([1, 1, 2, 3, 5, 8, 13, 21, 34, 55, 89])}
             steps.append(st)
@@ -519,8 +528,8 @@ def call_args(store, call):
     return args
 
 
-def run_bad(obj, aux, bad):
-    """Calls that must raise."""
+def run_bad(obj, aux, bad, extra=None):
+    """Calls that must raise (on this tree).  `extra` keeps caller-owned argument objects alive across steps."""
     import xarray as xr
 
     k = bad["k"]
@@ -546,6 +555,17 @@ def run_bad(obj, aux, bad):
         return spec.partition.ptm1(wspd=wspd2, wdir=w["wdir"], dpt=w["dpt"])
     if k == "names_len":
         return spec.stats(["hs", "tp"], names=["a"])
+    if k == "ptm_coords_close":
+        # wind/depth arrays from different sources: site coordinates agree to single precision only
+        if extra is None or "dpt32" not in extra:
+            dpt = w["dpt"]
+            d32 = dpt.assign_coords(lon=("site", dpt["lon"].values.astype("float32").astype("float64") + 1e-9),
+                                    lat=("site", dpt["lat"].values.astype("float32").astype("float64")))
+            if extra is not None:
+                extra["dpt32"] = d32
+        else:
+            d32 = extra["dpt32"]
+        return spec.partition.ptm1(wspd=w["wspd"], wdir=w["wdir"], dpt=d32)
     raise AssertionError(k)
 
 
@@ -579,6 +599,16 @@ def apply_edit(slot, e):
         obj.attrs["verif_note"] = "edited"
         if slot.kind == "ds":
             obj["efth"].attrs["units"] = "m2 s deg-1 (edited)"
+    elif k == "lonlat_assign":
+        lon, lat = obj["lon"].values, obj["lat"].values
+        if e["how"] == "reverse":
+            obj["lon"] = ("site", lon[::-1].copy())
+            obj["lat"] = ("site", lat[::-1].copy())
+        elif e["how"] == "shift":
+            obj["lon"] = ("site", lon + 1.5)
+        else:
+            obj["lon"].values[...] = lon + 0.75       # in-place write into the coordinate's values
+        obj.coords.update({"lon": obj["lon"], "lat": obj["lat"]}) if "lon" not in obj.coords else None
     elif k == "add_var":
         # a statistic stored next to the spectra under its own name (what users do before writing files)
         obj[e["name"]] = getattr(obj["efth"].spec, e["name"])()
@@ -816,8 +846,20 @@ def execute(arg):
                 continue
             # make sure argument objects exist before the snapshot (the caller owns them up front)
             args = call_args(store, st["call"]) if op == "call" else {}
+            wargs = {}
+            if op == "writer" and st.get("lonlat_args"):
+                wargs = {"lons": store.get("array", st["lonlat_args"][0]), "lats": store.get("array", st["lonlat_args"][1])}
             if op == "construct":
                 fk, dk = construct_kwargs(store, st)
+            if op == "bad" and st["bad"]["k"] == "ptm_coords_close" and sid in slots and slots[sid].kind in ("ds", "da"):
+                ex = store.objs.setdefault(f"badargs{sid}", {})
+                if "dpt32" not in ex:
+                    w_ = slots[sid].aux if slots[sid].aux is not None else slots[sid].obj
+                    try:
+                        ex["dpt32"] = w_["dpt"].assign_coords(lon=("site", w_["dpt"]["lon"].values.astype("float32").astype("float64") + 1e-9),
+                                                             lat=("site", w_["dpt"]["lat"].values.astype("float32").astype("float64")))
+                    except Exception:
+                        pass
             before = snapshot_all() if prop == "C17" else None
             situation = "returned"
             if op == "new":
@@ -862,7 +904,7 @@ def execute(arg):
                     req = {"kind": "call", "call": call}
                 elif op == "bad":
                     req = {"kind": "bad", "bad": st["bad"]}
-                    res_c = cmp.canon(run_bad(sl.obj, sl.aux, st["bad"]))
+                    res_c = cmp.canon(run_bad(sl.obj, sl.aux, st["bad"], extra=store.objs.setdefault(f"badargs{sid}", {})))
                 elif op == "construct":
                     req = {"kind": "construct", "st": st}
                     res_c = cmp.canon(run_construct(st, fk, dk))
@@ -895,7 +937,7 @@ def execute(arg):
                     path = fs.path(st["file"])
                     fs.arm(st.get("fault"))
                     try:
-                        do_write(sl.obj, st["fmt"], path, st.get("kw", {}))
+                        do_write(sl.obj, st["fmt"], path, dict(st.get("kw", {}), **wargs))
                         acked[st["file"]] = st["fmt"]
                         sim.count("writes_acked")
                     finally:
